@@ -94,6 +94,17 @@ type HTTP struct {
 	lastWrongPassword  time.Time
 	throttlingExponent int
 
+	// postingMu guards caughtUpTerm and posting, see postmessage.go.
+	postingMu sync.Mutex
+	// caughtUpTerm is the raft term in which, as the leader, the state
+	// machine of this node was last known to have applied everything
+	// which was in the log before.
+	caughtUpTerm uint64
+	// posting contains, per session, the ClientMessageId of a message
+	// which this node has handed to raft and which may not have been
+	// applied yet.
+	posting map[robust.Id]uint64
+
 	// XXX(1.0): delete this field
 	useProtobuf bool
 
@@ -140,6 +151,7 @@ func NewHTTP(ircServer *ircserver.IRCServer, raftNode *raft.Raft, ircStore *raft
 		raftDir:             raftDir,
 		peerAddr:            peerAddr,
 		getMessagesRequests: make(map[string]GetMessagesStats),
+		posting:             make(map[robust.Id]uint64),
 		useProtobuf:         useProtobuf,
 		raftProtocolVersion: raftProtocolVersion,
 	}
